@@ -208,7 +208,9 @@ pub fn run(ctx: &mut Ctx) {
     let basis_n = if ctx.thorough() { 96usize } else { 24 };
     let stride = (dpics.len() / basis_n).max(1);
     let rep = TV { ty: Ty::Date, raw: cal.day_number(2024, 9, 25) as i64 };
-    let basis: Vec<&Pic> = dpics.iter().step_by(stride).filter(|p| lossless(&rep, &rep.fields(), &p.toks)).collect();
+    let wk_pics = compile_all(ctx, crate::c19::WELL_KNOWN.iter().flat_map(|p| (0..5u8).map(move |v| crate::c19::case_variant(p, v))).collect());
+    let mut basis: Vec<&Pic> = dpics.iter().step_by(stride).filter(|p| lossless(&rep, &rep.fields(), &p.toks)).collect();
+    basis.extend(wk_pics.iter().filter(|p| lossless(&rep, &rep.fields(), &p.toks)));
     ctx.bound("date_basis_pictures", json!(basis.iter().map(|p| p.pic.clone()).collect::<Vec<_>>()));
     let total = cal.total_days() as u64;
     let basis_r = &basis;
